@@ -297,23 +297,32 @@ def sym_iterable_loader_errors(vc):
     re-raised unchanged by handle_iterable; process_datapackage re-raises the recorded exception after schema inference
     (tableschema's infer() swallows errors of the storage iterator)"""
     import z3
-    from pyvc.api import real_function, LoopSpec, check, cover, Stream, UFunc, Opaque, Tree
+    from pyvc.api import real_function, LoopSpec, check, cover, Stream, UFunc, Opaque, Tree, PyList
     from pyvc.symex import PyExc
     from pyvc import lib
     fk = vc.under_contract('dataflows/helpers/iterable_loader.py', ['iterable_loader', 'handle_iterable'])
 
     def thunk(it):
         IL = real_function(it, 'dataflows.helpers.iterable_loader', 'iterable_loader')
-        src = Stream('user_iterable', lambda it_: it_.fresh_row('item'), may_raise=True)
+        def item(it_):
+            # what the caller's iterable hands over is arbitrary: a dict row, a list row, or something that is no row at all
+            k = it_.decide(3, lambda i: True)
+            return it_.fresh_row('item') if k == 0 else (PyList([Opaque('cell', 'c0')]) if k == 1 else Opaque('junk', 'not_a_row'))
+        src = Stream('user_iterable', item, may_raise=True)
         il = it.call(IL, [src])
         it.loops['iterable_loader.handle_iterable#L0'] = LoopSpec(modes=('exit', 'raise'))
         try:
             it.run_generator(it.call(it.lib.getattr_(it, il, 'handle_iterable'), []))
         except PyExc as pe:
             up = [e for e in it.path.events if e.kind == 'PullRaises']
-            check(it, 'source-error-re-raised-unchanged', len(up) == 1 and pe.exc is up[0].exc)
+            if up:
+                check(it, 'source-error-re-raised-unchanged', len(up) == 1 and pe.exc is up[0].exc)
+                cover(it, 'raise-reachable')
+            else:
+                cover(it, 'bad-item-rejected-reachable')
+            # whatever stops the iteration -- the source failing or an item that is not a row -- is recorded: schema inference
+            # swallows it, and process_datapackage re-raises what is recorded
             check(it, 'source-error-recorded', il.attrs['exc'] is pe.exc)
-            cover(it, 'raise-reachable')
             return
         check(it, 'no-error-recorded-on-clean-exhaustion', il.attrs['exc'] is None)
     vc.explore(fk, thunk, min_paths=2)
@@ -444,8 +453,8 @@ def nat_fault_injection(h):
 
 def nat_commit_after_failure(h):
     """bounded: a dump / checkpoint placed AFTER a failing step is never committed"""
-    import os, tempfile, shutil
-    from dataflows import Flow, dump_to_path, checkpoint
+    import os, tempfile, shutil, zipfile
+    from dataflows import Flow, dump_to_path, dump_to_zip, checkpoint, finalizer
     for _ in range(h.n(30, 300)):
         n = h.rng.randint(1, 5)
         nres = h.rng.randint(1, 3)
@@ -462,13 +471,32 @@ def nat_commit_after_failure(h):
                 yield r
             if me == fail_res and fail_row == n:
                 raise RuntimeError('boom at exhaustion')
+
+        def bad_at_the_end(package):
+            # fails when the STREAM OF RESOURCES is exhausted: after the last row of the last resource was handed on
+            yield package.pkg
+            for res in package:
+                yield res
+            raise RuntimeError('boom after the last resource')
+
+        def boom(*_a, **_k):
+            raise RuntimeError('boom in the finalizer callback')
+        kind = h.rng.choice(['rows', 'rows', 'package-end', 'finalizer'])
+        failing = {'rows': bad, 'package-end': bad_at_the_end, 'finalizer': finalizer(boom)}[kind]
         d = tempfile.mkdtemp(prefix='c04b_')
         try:
-            got = h.run(lambda: Flow(*data, bad, dump_to_path(os.path.join(d, 'out')), checkpoint('cp', checkpoint_path=d)).process())
+            got = h.run(lambda: Flow(*data, failing, dump_to_path(os.path.join(d, 'out')), dump_to_zip(os.path.join(d, 'o.zip')),
+                                     checkpoint('cp', checkpoint_path=d)).process())
+            zip_ok = True
+            if os.path.exists(os.path.join(d, 'o.zip')):
+                try:
+                    zip_ok = 'datapackage.json' not in zipfile.ZipFile(os.path.join(d, 'o.zip')).namelist()
+                except zipfile.BadZipFile:
+                    zip_ok = True          # an unfinished archive is not a committed dump
             ok = got[0] == 'exc' and not os.path.exists(os.path.join(d, 'out', 'datapackage.json')) and \
-                not os.path.exists(os.path.join(d, 'cp', 'stream.ndjson'))
-            h.check(ok, 'dataflows/processors/dumpers/dumper_base.py::DumperBase.process_resources', (nres, n, fail_res, fail_row),
-                    'run fails, no descriptor, no checkpoint', (got[:2], os.listdir(d)))
+                not os.path.exists(os.path.join(d, 'cp', 'stream.ndjson')) and zip_ok
+            h.check(ok, 'dataflows/processors/dumpers/dumper_base.py::DumperBase.process_resources', (kind, nres, n, fail_res, fail_row),
+                    'run fails, no descriptor, no archive with a descriptor, no checkpoint', (got[:2], sorted(os.listdir(d)), zip_ok))
         finally:
             shutil.rmtree(d, ignore_errors=True)
 
@@ -689,6 +717,9 @@ def sym_conditional(vc):
             c.attrs['source'] = src
             r = it.call(it.lib.getattr_(it, c, '_process'), [])
             check(it, 'upstream-evaluated-exactly-once[%s]' % flow_kind, n[0] == 1)
+            # frame: evaluating the step leaves it as it was built (a second use of the same step object with another
+            # upstream package has to consult the same predicate and the same flow / factory again)
+            check(it, 'step-left-as-it-was-built[%s]' % flow_kind, c.attrs.get('flow') is flow and c.attrs.get('predicate') is pred)
             if r == 'INNER-RESULT':
                 check(it, 'true-predicate-runs-the-subflow-on-the-upstream-datastream[%s]' % flow_kind, got.get('ds') is ds)
                 if flow_kind == 'factory':
@@ -800,10 +831,16 @@ def nat_lazy_vs_stepwise(h):
                     (cfg, 'same step objects, stepwise'), 'same', 'rows' if n > 20 else again[1][0])
     # class-based step objects used a second time, on another input and through another entry point
     from dataflows import update_resource as _ur, set_primary_key as _spk
-    for mk in (lambda: set_type('a', type='number'), lambda: _ur(None, title='x'), lambda: _spk(['a']), lambda: printer(num_rows=1)):
+    def _by_package():
+        # a flow factory whose answer depends on the package it is given
+        return conditional(lambda dp: True,
+                           lambda dp: Flow(add_computed_field([dict(target='n', operation='constant',
+                                                                    with_=len(dp.descriptor['resources'][0]['schema']['fields']))])))
+    for mk in (lambda: set_type('a', type='number'), lambda: _ur(None, title='x'), lambda: _spk(['a']), lambda: printer(num_rows=1),
+               _by_package):
         s = mk()
         d1 = [{'a': i, 'b': 'x%d' % i} for i in range(3)]
-        d2 = [{'a': 10 + i, 'b': 'y%d' % i} for i in range(150)]
+        d2 = [{'a': 10 + i, 'b': 'y%d' % i, 'c': i} for i in range(150)]
         first = h.run(lambda: Flow([dict(r) for r in d1], s).results(on_error=None)[0])
         second = h.run(lambda: Flow([dict(r) for r in d2], s).results(on_error=None)[0])
         fresh = h.run(lambda: Flow([dict(r) for r in d2], mk()).results(on_error=None)[0])
@@ -820,6 +857,17 @@ def nat_lazy_vs_stepwise(h):
     for junk in (5, object(), 3.5):
         r = h.run(lambda: Flow([{'a': 1}], junk).results())
         h.check(r[0] == 'exc', 'dataflows/base/flow.py::Flow._chain', repr(junk), 'rejected', r[:2])
+    # an iterable link that is not a sequence of rows is rejected, not read as an empty resource
+    for bad in ('abc', {'a': 1}, [1, 2, 3], [{'a': 1}, [2]], [[1, 2], {'a': 3}], [{'a': 1}] * 5 + [7]):
+        for api in ('results', 'process', 'nested'):
+            if api == 'results':
+                r = h.run(lambda: Flow(bad).results(on_error=None))
+            elif api == 'process':
+                r = h.run(lambda: Flow(bad).process())
+            else:
+                r = h.run(lambda: Flow(Flow(bad), conditional(lambda dp: True, Flow())).results(on_error=None))
+            h.check(r[0] == 'exc', 'dataflows/helpers/iterable_loader.py::iterable_loader.handle_iterable', (repr(bad)[:40], api),
+                    'rejected', r[:2])
 
 
 # ------------------------------------------------------------------------------------------------ get_iterator / get_res / ResourceWrapper
